@@ -283,8 +283,24 @@ PROPS = {
     },
     "C11": {
         "module": "ZenonVerif.Props.C11",
-        "streams": [S("rewards-pure", 20000, 300000)],
-        "rule": "rewards-pure stream: the vm/constants reward lookups on every epoch 0..400, tick boundaries up to 2^64-1 and "
+        "extra_modules": ["ZenonVerif.Props.C11Node", "ZenonVerif.Props.C11NodeGen"],
+        "streams": [S("rewards-pure", 20000, 300000), S("rewards-node", 12, 150, timeout=14400)],
+        "rule": "rewards-node stream: one evaluation = one line: an Update call received by the pillar / stake / sentinel / "
+                "liquidity contract of a real node (outcome, new LastEpochUpdate cursor, number of epochs issued), one "
+                "RewardDepositHistory entry credited, the total credited per contract and epoch against the emission recomputed "
+                "from the generated tables, a CollectReward call (refused / amounts of the mint requests), a RewardDeposit "
+                "after it changed, the cursor after a momentum - each replayed through the Lean epoch-cursor model; plus, per rewarded epoch, the inputs "
+                "the contract read (stake entries / sentinel entries from the storage before the block; for pillars the node's "
+                "consensus EpochStats and PillarDelegationsByEpoch with the pillars' percentages and reward addresses) with the "
+                "amounts credited per address, recomputed by the Lean reward arithmetic; per "
+                "history one real chain with 10/15/20-minute epochs over 3-6 epochs (RewardTimeLimit 0..640 s, "
+                "UpdateMinNumMomentums 1..45, slots skipped one time in seven, Update sent by the producing pillar and/or by "
+                "arbitrary users, stakes/sentinels/delegations/balances/pillar percentages and reward addresses changing, a "
+                "pillar registering mid-epoch, CollectReward by accounts with and without deposit and twice in a row), "
+                "under the origin, accelerator and bridge&liquidity method tables; one history in four lets nobody call "
+                "Update for 10-14 epochs; afterwards the chain is fed to 2-3 follower nodes (one by one / random batches / big "
+                "batches with a restart after every batch) and cursor, every RewardDeposit and every history entry are "
+                "compared. rewards-pure stream: the vm/constants reward lookups on every epoch 0..400, tick boundaries up to 2^64-1 and "
                 "random epochs; getWeightedStake / getWeightedLiquidityStake / getWeightedSentinel on entries starting or "
                 "revoked before, at the edges of, inside and after the epoch window (incl. the 90% sentinel threshold); "
                 "computePillarRewardForEpoch on random epoch statistics (1-100 pillars, missed slots, zero expected, zero "
@@ -293,9 +309,18 @@ PROPS = {
                 "computeLiquidityStakeRewardsForEpoch (token tuples, additional reward, a fifteenth with percentages above 100%) run on "
                 "an in-memory contract storage with generated entries, pillars, give-percentages and backers, reading back "
                 "the RewardDeposit of every address; distinct = distinct (op,result) lines",
-        "partial": "T4 epoch cursor / exactly-once per epoch, T5 collect-once and 'identical on all nodes' need the mock-node "
-                   "and two-node streams (not part of this check yet); premises produced<=expected, sum of weights <= total weight, sum expected <= MomentumsPerEpoch "
-                   "are consensus facts (C05) taken as hypotheses",
+        "partial": "the amounts credited per epoch enter the cursor/deposit model as observed inputs (their arithmetic is the "
+                   "rewards-pure part, re-checked on the real chains' inputs for stake, sentinel and pillar epochs), so 'the "
+                   "total credited per epoch is within the emission' is a theorem about the pure functions plus a per-epoch "
+                   "comparison on real chains, not one end-to-end theorem; the premises of pillar_epoch_bound are monitored on "
+                   "every real epoch's statistics, not proved here; 'identical on all nodes' "
+                   "(EpochStats / PillarDelegationsByEpoch read from each node's own consensus cache) is established by the "
+                   "follower comparison only, not by a theorem; premises produced<=expected, sum of weights <= total weight, sum "
+                   "expected <= MomentumsPerEpoch are consensus facts (C05) taken as hypotheses; exactly-once is false for the "
+                   "liquidity contract's origin/accelerator-table Update when it is more than MaxEpochsPerUpdate/2 epochs behind "
+                   "(known finding F14: theorem epoch_cursor_liq_origin_partial + negative witness liq_origin_skips_epoch); "
+                   "liquidity token tuples / liquidity stakes / additional reward are exercised by the pure stream only; the "
+                   "time.Duration overflow of the epoch ticker after 292 years of epochs is not modelled",
         "assumptions": ["epoch statistics satisfy produced_i <= expected_i and sum of pillar weights <= TotalWeight",
                         "epoch windows are unix seconds with |t| <= 2^62 (int64 subtraction does not wrap)",
                         "pillar give-percentages are <= 100 (checkPillarPercentages)"],
